@@ -247,7 +247,8 @@ func parseReqElem(raw json.RawMessage) reqElem {
 }
 
 // c09Aliases is the alias table installed on the fixture server.
-var c09Aliases = map[string]string{"alias.add": "T.Add", "alias.missing": "T.Missing", "T.Echo": "T.Add" /* shadowed by the direct name */}
+var c09Aliases = map[string]string{"alias.add": "T.Add", "alias.missing": "T.Missing", "T.Echo": "T.Add", /* shadowed by the direct name */
+	"größe.加": "T.Add", "tab\tname": "T.Add", strings.Repeat("long", 80): "T.Add"}
 
 func resolveBasic(method string) (string, bool) {
 	if strings.HasPrefix(method, "T.") {
